@@ -68,8 +68,13 @@ func (s UniformSampler) ReadNew() (p Poly) {
 	return Poly{Q: Q, P: P}
 }
 
+// WithPRNG returns a sampler over the same ring that reads from the given PRNG.
+// It shares no state with the receiver.
 func (s UniformSampler) WithPRNG(prng sampling.PRNG) UniformSampler {
-	sp := UniformSampler{samplerQ: s.samplerQ.WithPRNG(prng)}
+	sp := UniformSampler{}
+	if s.samplerQ != nil {
+		sp.samplerQ = s.samplerQ.WithPRNG(prng)
+	}
 	if s.samplerP != nil {
 		sp.samplerP = s.samplerP.WithPRNG(prng)
 	}
